@@ -157,6 +157,10 @@ func namesSexp(names []string) string {
 }
 
 // nodeSexp serialises the exported AST returned by jparse.Parse.
+// regexSubjects, when non-nil, makes nodeSexp attach the regexp engine's matches on these
+// subject strings to every regex literal (set by modelEval only).
+var regexSubjects []string
+
 func nodeSexp(n jparse.Node) string {
 	switch n := n.(type) {
 	case *jparse.StringNode:
@@ -175,7 +179,29 @@ func nodeSexp(n jparse.Node) string {
 		if n.Value != nil {
 			s = n.Value.String()
 		}
-		return "(regex " + hexStr(s) + ")"
+		if n.Value == nil || regexSubjects == nil {
+			return "(regex " + hexStr(s) + ")"
+		}
+		// the engine's graph on the candidate subjects (the model takes the engine as a parameter)
+		var b strings.Builder
+		b.WriteString("(regex " + hexStr(s))
+		for _, subj := range regexSubjects {
+			b.WriteString(" (t " + hexStr(subj))
+			for _, ix := range n.Value.FindAllStringSubmatchIndex(subj, -1) {
+				fmt.Fprintf(&b, " (m %d %d %s", ix[0], ix[1], hexStr(subj[ix[0]:ix[1]]))
+				for j := 1; j < len(ix)/2; j++ {
+					g := ""
+					if ix[2*j] >= 0 {
+						g = subj[ix[2*j]:ix[2*j+1]]
+					}
+					b.WriteString(" " + hexStr(g))
+				}
+				b.WriteString(")")
+			}
+			b.WriteString(")")
+		}
+		b.WriteString(")")
+		return b.String()
 	case *jparse.VariableNode:
 		return "(var " + hexStr(n.Name) + ")"
 	case *jparse.NameNode:
